@@ -33,7 +33,7 @@ def gen_events(rng):
     nref = 1 + rng.below(3)
     focus = rng.choice([0, 1, 1, 1, 2])                 # most sequences work on one base: conflicts need a shared base
     pool = [i for i, p in enumerate(PLACES) if p[1] == focus] + ([rng.below(len(PLACES))] if rng.below(2) else [])
-    toks, lines, refs = [], [], {}
+    toks, lines, refs, loan_of = [], [], {}, {}
     n = 3 + rng.below(6)
     k = 0
     for step in range(n):
@@ -46,7 +46,16 @@ def gen_events(rng):
             m = rng.below(2) == 0
             refs[rid] = (ty, m)
             toks.append("B%d:%d:%s:%s" % (rid, base, path, "m" if m else "s"))
+            loan_of[rid] = "%d:%s:%s" % (base, path, "m" if m else "s")
             lines.append("let r%d: %s%s = %s%s;" % (rid, "&'" if m else "&", ty, "&'" if m else "&", src))
+        elif r < 4 and refs and len(refs) < nref + 1 and any(not m_ for _, m_ in refs.values()):
+            # copy of a shared reference into another reference variable: a second loan on the same place
+            src_r = rng.choice([q_ for q_, (_, m_) in sorted(refs.items()) if not m_])
+            rid = max(refs) + 1
+            refs[rid] = refs[src_r]
+            toks.append("U%d" % src_r); toks.append("B%d:%s" % (rid, loan_of[src_r]))
+            lines.append("let r%d := r%d;" % (rid, src_r))
+            loan_of[rid] = loan_of[src_r]
         elif r < 5 and refs:
             rid = rng.choice(sorted(refs))
             toks.append("U%d" % rid)
@@ -68,11 +77,25 @@ def gen_events(rng):
             m = rng.below(2) == 0
             toks.append("T%d:%s:%s" % (base, path, "m" if m else "s"))
             lines.append("poke(&'%s);" % src if m else "io::Println(peek(&%s));" % src)
-    return toks, lines
+    # nest some of the non-declaring statements: the checker keeps a loan alive up to the STATEMENT of the enclosing block that
+    # contains the last use, whatever the nesting (branch of an if / else-if chain, match arm, block, loop body); k1 is 1, so each
+    # wrapped statement still executes exactly once
+    out = []
+    for j, l in enumerate(lines):
+        if l.startswith("let r") or rng.below(5) >= 2:
+            out.append(l); continue
+        w = rng.below(6)
+        if w == 0: out.append("if k1 == 1 { %s }" % l)
+        elif w == 1: out.append("if k1 == 0 { } else if k1 == 1 { %s } else { }" % l)
+        elif w == 2: out.append("if k1 == 0 { } else { %s }" % l)
+        elif w == 3: out.append("match k1 { 1 => { %s } _ => { } }" % l)
+        elif w == 4: out.append("{ { %s } }" % l)
+        else: out.append("let w%d: i32 = 0; while w%d < 1 { %s w%d = w%d + 1; }" % (j, j, l, j, j))
+    return toks, out
 
 
 def render(lines, wrap=None):
-    body = ["let y: i32 = 1;", "let x: P = mkP();", "let q: [2]i32 = [3, 4];", "let z: i32 = 2;"] + lines
+    body = ["let k1: i32 = 1;", "let y: i32 = 1;", "let x: P = mkP();", "let q: [2]i32 = [3, 4];", "let z: i32 = 2;"] + lines
     tail = ["io::Println(y);", "io::Println(x.A);", "io::Println(x.B);", "io::Println(x.In.C);", "io::Println(x.In.D);", "io::Println(q[0]);", "io::Println(q[1]);", "io::Println(z);"]
     return PRE + "fn main() {\n" + "".join("    " + l + "\n" for l in body + tail) + "}\n"
 
@@ -165,8 +188,9 @@ def main():
             if exp is not None and (not r.accepted or r.run_rc != 0 or r.lines != exp):
                 rep.fail("runtime:" + hashlib.sha1(" ".join(toks).encode()).hexdigest()[:12], "accepted program with references prints %s, expected %s (events [%s])" % (r.lines[-8:], exp[-8:], " ".join(toks)),
                          {"kind": "input", "files": {"main.fer": render(lines)}, "expected": exp, "observed": r.lines, "cmd": "ferret -o out main.fer && ./out"})
-    fr = run_many([{"files": {"main.fer": src}, "mode": "check", "timeout": 60} for _, src, _ in FIXED])
-    for (name, src, acc), r in zip(FIXED, fr):
+    fixed = [] if os.environ.get("VERIF_C07_GENERATED_ONLY") else FIXED
+    fr = run_many([{"files": {"main.fer": src}, "mode": "check", "timeout": 60} for _, src, _ in fixed])
+    for (name, src, acc), r in zip(fixed, fr):
         errs = [d[2] for d in r.diags if d[0] == "error"]
         if r.compile_rc not in (0, 1):
             rep.fail("crash:" + name, "compiler crashed on fixed borrow program " + name, {"kind": "input", "files": {"main.fer": src}})
@@ -218,7 +242,20 @@ def simulate(lines):
     env = {"y": 1, "x.A": 10, "x.B": 20, "x.In.C": 30, "x.In.D": 40, "q[0]": 3, "q[1]": 4, "z": 2}
     refs, out = {}, []
     import re
+    flat = []
     for l in lines:
+        m = re.search(r"\{ ((?:io::Println|r\d+ =|\S+ = |let c|poke)[^{}]*;) ", l + " ")
+        if l.startswith(("if k1", "match k1", "{ {", "let w")):
+            inner = re.findall(r"\{ ([^{}]*?;) (?:w\d+ = w\d+ \+ 1; )?\}", l)
+            inner = [x for x in inner if x.strip()]
+            if len(inner) != 1: return None
+            flat.append(inner[0].strip())
+        else:
+            flat.append(l)
+    for l in flat:
+        m = re.match(r"let r(\d+) := r(\d+);", l)
+        if m:
+            refs[int(m.group(1))] = refs[int(m.group(2))]; continue
         m = re.match(r"let r(\d+): &'?(\S+) = &'?(\S+);", l)
         if m:
             refs[int(m.group(1))] = (m.group(3), m.group(2)); continue
